@@ -284,6 +284,9 @@ def worker(lines):
 
 
 def replay(case):
+    if case.get('kind') == 'text_values':
+        v = check_text_values()
+        return v and '%s: %s' % v[0]
     if case.get('kind') == 'custom_spec':
         v = check_custom_spec()
         return v and '%s: %s' % v[0]
@@ -365,6 +368,30 @@ def record_random(rng, n):
         recs.append(rec)
         cases.append({'row': ['A', t, v, []]})
     return recs, cases
+
+
+def check_text_values():
+    """Texts are decoded with the charset in force (latin1 here), whatever else their bytes
+    could be taken for."""
+    import mido
+    out = []
+    for text in ('\xc2\xa9 2024', '\xc3\xa9', 'na\xc3\xafve', '\xe2\x82\xac', 'S\xc3\xa3o Paulo', '\xc4\xb0', 'Piano\x00', '\x00',
+                 '\xff\xfe', 'a\r\nb', ' lead ', '\x7f'):
+        for t, attr in (('text', 'text'), ('track_name', 'name'), ('lyrics', 'text'), ('cue_marker', 'text'), ('device_name', 'name')):
+            try:
+                m = mido.MetaMessage(t, **{attr: text})
+                b = m.bytes()
+                enc = list(text.encode('latin1'))
+                d = mido.MetaMessage.from_bytes(b)
+                r = through_track(b, 3)
+                if list(b[3:]) != enc or not (d == m) or not (r == m.copy(time=3)) or d.type != t:
+                    out.append(('text-value/' + t, '%s with text %r: bytes %r, decoded %s, read from a track %s' % (
+                        t, text, b, core.srepr(d), core.srepr(r))))
+                    break
+            except Exception as e:
+                out.append(('text-value-raises/' + t, '%s with text %r: %r' % (t, text, e)))
+                break
+    return out[:3]
 
 
 def check_custom_spec():
@@ -510,6 +537,9 @@ CHECK_DEADLOCK FALSE
         'sequencer_specific data is given as list, tuple, bytes, bytearray, generator, iterator or map object in turn',
         'values of the wrong type are driver-level constants, the specification only states that they are outside every domain',
     ]
+    for key, msg in check_text_values():
+        ctx.violation('meta/' + key, {'kind': 'text_values'}, msg)
+    ctx.replayed += 60
     for key, msg in check_custom_spec():
         ctx.violation('meta/' + key, {'kind': 'custom_spec'}, msg)
     ctx.replayed += 1
